@@ -219,4 +219,7 @@ def axisOk (first : Rat) (a : Axis) : Bool :=
   (match a.coords.head? with | some c => decide (c = first) | none => true) &&
   withinStepFrom first a.step 0 a.coords
 
+/-- a 6-frame stereo file (used by the non-vacuity examples of `Proofs/C15.lean`) -/
+def demoFile : List Frame := [[1, -1], [2, -2], [3, -3], [4, -4], [5, -5], [6, -6]]
+
 end SE.Audio
